@@ -93,14 +93,22 @@ def run_family(cid, tier, jobs, timeout_s, target, only=None):
         "--cbmc-args", "--max-field-sensitivity-array-size", "4096",
     ]
     t0 = time.time()
-    # address-space limit per process (CBMC included): a harness that needs more is reported as
-    # out of memory (inconclusive) instead of endangering the other checks
+    # phase 1: compile + codegen only, without the address-space limit (kani-compiler maps more
+    # than 16 GB of address space on the larger harness families and aborts with SIGABRT under it)
+    i = cmd.index("--cbmc-args")
+    pre = sh(" ".join(cmd[:i] + ["--only-codegen"] + cmd[i:]), cwd=HARNESS_RUN, env=kani_env())
+    if pre.returncode != 0:
+        return pre.stdout, time.time() - t0, out_dir, " ".join(cmd)
+    # phase 2 (compilation cached): address-space limit per process (CBMC included): a harness
+    # that needs more is reported as out of memory (inconclusive) instead of endangering the
+    # other checks
     mem_kb = int(os.environ.get("VERIF_CBMC_MEM_KB", "16000000"))
     p = sh("ulimit -v %d; exec %s" % (mem_kb, " ".join(cmd)), cwd=HARNESS_RUN, env=kani_env())
     return p.stdout, time.time() - t0, out_dir, " ".join(cmd)
 
 
-RE_FAILED = re.compile(r"Failed Checks: (.*)\n\s*File: \"([^\"]*)\", line (\d+), in (\S+)")
+# (rustfmt-style wrapping can spread an assertion text over several lines)
+RE_FAILED = re.compile(r"Failed Checks: ((?:.|\n)*?)\n\s*File: \"([^\"]*)\", line (\d+), in (\S+)")
 
 
 def parse_result(path):
@@ -118,7 +126,7 @@ def parse_result(path):
     if m:
         r["time_s"] = float(m.group(1))
     for d, f, l, fn in RE_FAILED.findall(txt):
-        r["failed_checks"].append({"description": d.strip(), "file": f, "line": int(l), "function": fn})
+        r["failed_checks"].append({"description": " ".join(d.split()), "file": f, "line": int(l), "function": fn})
     if "VERIFICATION:- SUCCESSFUL" in txt:
         r["status"] = "success"
     elif "CBMC timed out" in txt:
